@@ -99,6 +99,8 @@ def check(pm: ProgramModel, ctx: Ctx) -> None:
     if m1 is not None:
         cd.report("COMBINED", "rich-model", cd.last_rt, "model realising all dimensions at once",
                   ("type", "fcard", "attribute"), fragment=False)
+    if ctx.tier == "thorough":
+        cd.thorough_pairs(mb, [op for op in BINARY_LOGICAL if op != "XOR"], "VOC")
     cd.finish_unowned()
     ctx.analysed["C07:compositions"] = cd.n
     ctx.floor("C07", "obligations", len(ctx.obligations), 35)
